@@ -177,3 +177,37 @@ Section NextF.
     if st_conv st then Ok (st, None)
     else ch <- choice_of c st z word ;; next c st ch.
 End NextF.
+
+(* ---------- next() driven by the generator only: hold-out index + one word ---------- *)
+
+(* the 52-bit fraction of UniformFloat::sample: (bits >> 12 | 1.0) - 1.0, in [0, 1 - 2^-52] *)
+Definition u01 (word : Z) : F64.t :=
+  F64.sub (F64.of_bits (Z.lor (Z.shiftr word 12) 4607182418800017408)) f64_one.
+
+(* 0 <= u01 word <= 1 - 2^-52 (true of every u64 word; an executable test) *)
+Definition word_ok (word : Z) : bool :=
+  F64.le F64.zero (u01 word) && F64.le (u01 word) f64_max_rand.
+
+Section NextG.
+  Variable flog2 : F32.t -> F32.t.
+  Variable fpow2 : F32.t -> F32.t.
+  Variable fexp2 : F64.t -> F64.t.
+
+  (* like next_f, with select_holdout's range / seed test in front (as in next()) *)
+  Definition next_g (c : cfg) (st : state) (z : nat) (word : option Z)
+    : res (state * option iteration) :=
+    if st_conv st then Ok (st, None)
+    else z' <- select_holdout c st z ;;
+         ch <- choice_of flog2 fpow2 fexp2 c st z' word ;;
+         next c st ch.
+
+  Fixpoint run_g (c : cfg) (st : state) (zws : list (nat * option Z))
+    : res (list (state * option iteration)) :=
+    match zws with
+    | [] => Ok []
+    | zw :: r =>
+        x <- next_g c st (fst zw) (snd zw) ;;
+        t <- run_g c (fst x) r ;;
+        Ok (x :: t)
+    end.
+End NextG.
